@@ -21,6 +21,8 @@ out = ["# Changes written by independent sub-agents", "",
        "demo passes on the clean tree / fails with the patch / the existing suite still passes, and the result of every claimed check",
        "on a scratch copy with the patch applied). `tools/recheck_seeds.py` refreshes the `checks` part; `tools/seed_readme.py` this file.",
        "None of these patches is ever applied to /repo.", "",
+       "Waves: `Cxx_n` (1), `Cxxb_n` (2), `Cxxc_n` (3), `Cxxd_n` (4); DESIGN.md sections 11 and 12. `history` says what the checks did",
+       "on first sight and which rule was added or corrected.", "",
        "| seed | property | change (first sentence of the agent's summary) | confirmed | caught by | target property caught | rules (first) | history |",
        "|---|---|---|---|---|---|---|---|"]
 for r in rows:
